@@ -8,14 +8,20 @@ pub fn begin_collect_arguments<T: InterpreterTrait>(interpreter: &mut T) {
 
 pub fn enqueue_to_return_stack<T: InterpreterTrait>(interpreter: &mut T, index: usize) {
     let v = interpreter.context()[index].clone();
-    interpreter.by_ref_stack().push_back(v);
+    let path = interpreter.context().variables().get_arg_path(index).cloned();
+    interpreter.by_ref_stack().push_back((v, path));
 }
 
-pub fn dequeue_from_return_stack<T: InterpreterTrait>(interpreter: &mut T) {
-    let v = interpreter
+pub fn dequeue_from_return_stack<T: InterpreterTrait>(interpreter: &mut T, with_path: bool) {
+    let (v, path) = interpreter
         .by_ref_stack()
         .pop_front()
         .expect("by_ref_stack underflow");
+    if with_path {
+        // the path of the variable that was passed, as it was resolved before the call
+        let path = path.expect("Should have a VarPath");
+        interpreter.var_path_stack().push_back(path);
+    }
     interpreter.registers_mut().set_a(v);
 }
 
@@ -55,6 +61,21 @@ pub fn push_unnamed_arg_by_ref<T: InterpreterTrait>(interpreter: &mut T) {
         .context_mut()
         .arguments_mut()
         .push_unnamed_by_ref(v, path);
+}
+
+pub fn push_a_to_named_arg_by_ref<T: InterpreterTrait>(
+    interpreter: &mut T,
+    param_name: &Parameter,
+) {
+    let path = interpreter
+        .var_path_stack()
+        .pop_back()
+        .expect("Should have a VarPath");
+    let v = interpreter.registers().get_a();
+    interpreter
+        .context_mut()
+        .arguments_mut()
+        .push_named_by_ref(param_name.clone(), v, path);
 }
 
 pub fn push_a_to_named_arg<T: InterpreterTrait>(interpreter: &mut T, param_name: &Parameter) {
